@@ -12,7 +12,7 @@ from ..report import violation
 PID = "C10"
 LEVEL = "model_checking"
 SAVERS = ["mem", "pickle", "weights_only", "safetensors"]
-TARGETS = ["same", "same_assign", "default", "requantize", "same_frozen", "reload_twice"]
+TARGETS = ["same", "same_assign", "default", "requantize", "same_frozen", "reload_twice", "used_assign"]
 RULE = (
     "for every configuration (6 toy models x 6 weight qtypes incl. the qfloat8 alias, grouped and ungrouped int4/int2 x activations {None,qint8,e4m3} x dtype {f32,f16,bf16}) "
     "breadth-first search over histories of {freeze, calibrate, save+load cycle (4 serializers x 6 targets: same-quantized (load_state_dict with and without assign=True), default-quantized, requantize(), same-quantized already frozen with other weights, a model that loaded another checkpoint first)} to depth 3 (quick) / 4 (thorough), "
@@ -63,6 +63,24 @@ def _target(cfg, target, sd):
     if target in ("same", "same_assign"):
         m = models.build_quantized(cfg["model"], cfg["dt"], cfg["w"], cfg["a"])
         m.load_state_dict(sd, assign=(target == "same_assign"))
+        return m
+    if target == "used_assign":
+        # a model object that already served (inference forwards with other weights, frozen like the checkpoint) receives the
+        # checkpoint with assign=True: one evaluation harness loading successive checkpoints
+        from optimum.quanto import freeze
+
+        m = models.build_quantized(cfg["model"], cfg["dt"], cfg["w"], cfg["a"])
+        with torch.no_grad():
+            for p in m.parameters():
+                if p.dtype.is_floating_point and p.ndim >= 1:
+                    p.mul_(-0.5)
+        if any(k.endswith("weight._data") or k.endswith("weight._data._data") for k in sd):
+            freeze(m)
+        m.eval()
+        with torch.no_grad():
+            m(models.probe_input(cfg["model"], cfg["dt"], 0))
+            m(models.probe_input(cfg["model"], cfg["dt"], 1))
+        m.load_state_dict(sd, assign=True)
         return m
     if target in ("same_frozen", "reload_twice"):
         # a target that already holds (other) frozen weights: frozen before loading / a different checkpoint loaded first
@@ -196,6 +214,27 @@ def _explore(cfg, tier, only=None):
             msg = _sd_equal(sd, st.model.state_dict())
             if msg:
                 viol.append(violation(PID, case, dict(fields, sub="resave_differs"), f"resave_differs: saving the loaded model again gives a different state_dict: {msg} ({saver}->{target} after {hist})"))
+            # replica independence: a second model built from the same deserialized state_dict then receives another checkpoint
+            # (plain load_state_dict copies in place); the first replica must not change
+            # (not for assign=True targets: there the caller asked for the model to adopt the state_dict's tensors)
+            if target not in ("same_assign", "used_assign") and (len(hist) <= 1 or target == "requantize"):
+                from optimum.quanto import freeze
+
+                mb = _target(cfg, target, dict(sd2))
+                om = models.build_quantized(cfg["model"], cfg["dt"], cfg["w"], cfg["a"])
+                with torch.no_grad():
+                    for p in om.parameters():
+                        if p.dtype.is_floating_point and p.ndim >= 1:
+                            p.mul_(0.25)
+                if frozen:
+                    freeze(om)
+                try:
+                    mb.load_state_dict({k: (v.clone() if isinstance(v, torch.Tensor) else v) for k, v in om.state_dict().items()})
+                    loaded_other = True
+                except Exception:
+                    loaded_other = False  # whether that second load works is judged by its own cycle
+                if loaded_other and lifecycle.model_hash(st.model) != ref_hash:
+                    viol.append(violation(PID, case, dict(fields, sub="replica_aliasing"), f"replica_aliasing: loading another checkpoint into a second model built from the same deserialized state_dict changed the first model ({saver}->{target} after {hist})"))
         except Exception as e:  # noqa
             viol.append(violation(PID, case, dict(fields, sub="loaded_model_raised"), f"loaded_model_raised: using the model loaded through {saver}->{target} raised {type(e).__name__}: {str(e)[:200]} after {hist}"))
             return None
